@@ -42,7 +42,7 @@ package frame
 // ---- element access through views (C11): every operation addresses exactly rows [off, off+len) ----
 // (abstract column memory ColMem and the role contracts of the per-column closures are in /verif/trusted/frame.contracts)
 
-//@ spec func colOK(d data) bool = opsCol(d.ops) == d.ptr && rvCol(d.val) == d.ptr && rvOff(d.val) == 0 && rvCap(d.val) == colLen(d.ptr) && rvLen(d.val) <= colLen(d.ptr) && d.typ.size >= 1 && pcol(d.ptr) == d.ptr && pidx(d.ptr, d.typ.size) == 0 && typeSize(d.typ.ptr) == d.typ.size && rtSize(d.typ.Type) == d.typ.size && colStamp(d.ptr) <= colClock
+//@ spec func colOK(d data) bool = opsCol(d.ops) == d.ptr && rvCol(d.val) == d.ptr && rvOff(d.val) == 0 && rvCap(d.val) == colLen(d.ptr) && rvLen(d.val) <= colLen(d.ptr) && d.typ.size >= 1 && pcol(d.ptr) == d.ptr && pidx(d.ptr) == 0 && csize(d.ptr) == d.typ.size && ((d.ops.Encode != nil) == (d.ops.Decode != nil)) && typeSize(d.typ.ptr) == d.typ.size && rtSize(d.typ.Type) == d.typ.size && colStamp(d.ptr) <= colClock
 //@ spec func wf(f Frame) bool = 0 <= f.off && 0 <= f.len && f.len <= f.cap && -1 <= f.prefix && f.prefix < len(f.data) && forall(k, 0, len(f.data), colOK(f.data[k]) && f.off + f.cap <= colLen(f.data[k].ptr))
 //@ spec func cellAt(f Frame, c int, i int) int = ColMem[f.data[c].ptr][f.off+i]
 //@ spec func cellLess(f Frame, c int, i int, j int) bool = elemLess(colKind(f.data[c].ptr), cellAt(f, c, i), cellAt(f, c, j))
@@ -83,6 +83,7 @@ package frame
 //@ func frame.Frame.Encode
 //@   requires wf(f) && 0 <= col && col < len(f.data) && f.data[col].ops.Encode != nil
 //@   ensures  exactly-the-view: encCalls == old(encCalls) + 1 && lastEncCol == f.data[col].ptr && lastEncLo == f.off && lastEncHi == f.off + f.len
+//@   ensures  result != sliceio.EOF
 //@   modifies encCalls, lastEncCol, lastEncLo, lastEncHi
 
 //@ func frame.Frame.Decode
@@ -115,7 +116,7 @@ package frame
 //@ func frame.Frame.UnsafeIndexPointer
 //@   requires wf(f) && 0 <= col && col < len(f.data) && 0 <= i && i < f.len
 //@   flag nlarith
-//@   ensures  cell: pcol(result) == f.data[col].ptr && pidx(result, f.data[col].typ.size) == f.off + i
+//@   ensures  cell: pcol(result) == f.data[col].ptr && pidx(result) == f.off + i
 //@   modifies nothing
 
 //@ func frame.Frame.Zero
@@ -123,7 +124,9 @@ package frame
 //@   flag nlarith
 //@   ensures  view-zeroed: forall(c, 0, len(f.data), forall(k, f.off, f.off + f.len, ColMem[f.data[c].ptr][k] == zeroElem(f.data[c].ptr)))
 //@   ensures  rows-outside-untouched: forall(c, 0, len(f.data), forall(k, implies(k < f.off || k >= f.off + f.len, ColMem[f.data[c].ptr][k] == old(ColMem[f.data[c].ptr][k]))))
+//@   ensures  other-columns-untouched: forall(c, implies(!isColOf(f, Ref(c)), ColMem[Ref(c)] == old(ColMem[Ref(c)])))
 //@   modifies ColMem
+//@   loop 1 invariant forall(c, implies(!isColOf(f, Ref(c)), ColMem[Ref(c)] == old(ColMem[Ref(c)])))
 //@   loop 1 invariant forall(c, 0, range_idx, forall(k, f.off, f.off + f.len, ColMem[f.data[c].ptr][k] == zeroElem(f.data[c].ptr)))
 //@   loop 1 invariant forall(c, 0, range_idx, forall(k, implies(k < f.off || k >= f.off + f.len, ColMem[f.data[c].ptr][k] == old(ColMem[f.data[c].ptr][k]))))
 //@   loop 1 invariant forall(c, range_idx, len(f.data), ColMem[f.data[c].ptr] == old(ColMem[f.data[c].ptr]))
@@ -308,6 +311,7 @@ package frame
 //@   panics_if len < 0 || len > cap
 //@   ensures  wf(g) && distinctCols(g) && g.off == 0 && g.len == len && g.cap == cap
 //@   ensures  typed: len(g.data) == typeNumOut(types) && g.prefix == typePrefix(types) - 1 && forall(k, 0, len(g.data), g.data[k].typ.Type == typeOut(types, k))
+//@   ensures  frame-typed: implies(hastype(types, Frame), len(g.data) == len(unbox(types, Frame).data) && g.prefix == unbox(types, Frame).prefix && forall(k, 0, len(g.data), g.data[k].typ.Type == unbox(types, Frame).data[k].typ.Type))
 //@   ensures  fresh-columns: colClock == old(colClock) + 1 && forall(k, 0, len(g.data), colStamp(g.data[k].ptr) == colClock)
 //@   ensures  zero-filled: forall(k, 0, len(g.data), forall(r, 0, cap, ColMem[g.data[k].ptr][r] == zeroElem(g.data[k].ptr)))
 //@   ensures  nothing-else-touched: forall(c, implies(colStamp(Ref(c)) <= old(colClock), ColMem[Ref(c)] == old(ColMem[Ref(c)])))
@@ -318,7 +322,7 @@ package frame
 //@   vars f Frame
 
 //@ func frame.Frame.grow (need) (g, i0, i1)
-//@   requires wf(f) && distinctCols(f) && forall(k, 0, len(f.data), typeOut(boxed(f, slicetype.Type), k) == f.data[k].typ.Type) && len(f.data) >= 1
+//@   requires wf(f) && distinctCols(f) && len(f.data) >= 1
 //@   flag nlarith
 //@   panics_if need < 0
 //@   ensures  bounds: i0 == f.len && i1 == f.len + need && g.len == i1 && g.len <= g.cap && g.prefix == f.prefix && len(g.data) == len(f.data) && colClock >= old(colClock)
@@ -333,7 +337,7 @@ package frame
 //@   loop 1 invariant m >= f.cap && m > 0 && i0 == f.len && i1 == i0 + need && i1 > f.cap && need >= 0
 
 //@ func frame.Frame.Grow
-//@   requires wf(f) && distinctCols(f) && forall(k, 0, len(f.data), typeOut(boxed(f, slicetype.Type), k) == f.data[k].typ.Type) && len(f.data) >= 1
+//@   requires wf(f) && distinctCols(f) && len(f.data) >= 1
 //@   panics_if n < 0
 //@   ensures  wf(result) && distinctCols(result) && result.len == f.len + n && result.prefix == f.prefix && len(result.data) == len(f.data) && colClock >= old(colClock)
 //@   ensures  rows-kept: forall(k, 0, len(f.data), forall(r, 0, f.len, ColMem[result.data[k].ptr][result.off + r] == old(ColMem[f.data[k].ptr][f.off + r])))
@@ -344,8 +348,12 @@ package frame
 //@   modifies ColMem, colClock
 
 //@ func frame.Frame.Ensure
-//@   requires wf(f) && distinctCols(f) && forall(k, 0, len(f.data), typeOut(boxed(f, slicetype.Type), k) == f.data[k].typ.Type) && len(f.data) >= 1 && n >= 0
-//@   ensures  wf(result) && result.len == n && result.prefix == f.prefix && len(result.data) == len(f.data) && colClock >= old(colClock)
+//@   requires wf(f) && distinctCols(f) && len(f.data) >= 1
+//@   panics_if n < 0
+//@   ensures  wf(result) && distinctCols(result) && result.len == n && result.prefix == f.prefix && len(result.data) == len(f.data) && colClock >= old(colClock)
+//@   ensures  same-types: forall(k, 0, len(f.data), result.data[k].typ.Type == f.data[k].typ.Type)
+//@   ensures  same-or-fresh-columns: result.data == f.data || forall(k, 0, len(result.data), colStamp(result.data[k].ptr) > old(colClock))
+//@   ensures  existing-storage-untouched: forall(c, implies(colStamp(Ref(c)) <= old(colClock), ColMem[Ref(c)] == old(ColMem[Ref(c)])))
 //@   ensures  same-view-when-it-fits: implies(n <= f.cap, result.data == f.data && result.off == f.off && ColMem == old(ColMem))
 //@   ensures  rows-kept-in-place: implies(n <= f.cap, forall(k, 0, len(f.data), forall(r, 0, f.len, implies(r < n, ColMem[result.data[k].ptr][result.off + r] == old(ColMem[f.data[k].ptr][f.off + r])))))
 //@   ensures  rows-kept-grown: implies(n > f.cap, forall(k, 0, len(f.data), forall(r, 0, f.len, ColMem[result.data[k].ptr][result.off + r] == old(ColMem[f.data[k].ptr][f.off + r]))))
@@ -363,8 +371,8 @@ package frame
 //@   modifies nothing
 
 //@ func frame.AppendFrame
-//@   requires wf(src) && distinctCols(src) && implies(dst.data != nil, wf(dst) && distinctCols(dst) && len(dst.data) >= 1 && compatible(dst, src) && sizesAgree(dst, src) && crossOK(dst, src) && forall(k, 0, len(dst.data), typeOut(boxed(dst, slicetype.Type), k) == dst.data[k].typ.Type))
-//@   requires implies(dst.data == nil, len(src.data) >= 1 && forall(k, 0, len(src.data), typeOut(boxed(src, slicetype.Type), k) == src.data[k].typ.Type && typeSize(src.data[k].typ.ptr) == rtSize(src.data[k].typ.Type)))
+//@   requires wf(src) && distinctCols(src) && implies(dst.data != nil, wf(dst) && distinctCols(dst) && len(dst.data) >= 1 && compatible(dst, src) && sizesAgree(dst, src) && crossOK(dst, src))
+//@   requires implies(dst.data == nil, len(src.data) >= 1)
 //@   flag nlarith
 //@   ensures  length: result.len == ite(dst.data == nil, 0, dst.len) + src.len && wf(result)
 //@   ensures  appended: forall(k, 0, len(result.data), forall(r, 0, src.len, ColMem[result.data[k].ptr][result.off + ite(dst.data == nil, 0, dst.len) + r] == old(ColMem[src.data[k].ptr][src.off + r])))
